@@ -62,6 +62,11 @@ THEOREMS = [
     "derived_write_touches_only_its_entry",
     "shared_error_stops_family",
     "overrides_on_context",
+    "overrides_compose",
+    "overrides_keep_nil",
+    "overrides_compose_on_context",
+    "parent_inherits_composed",
+    "overrides_merge_differs",
     "getOrCreatePath_touches_only_path",
     "nested_bucket_own_holder",
     "derived_writes_touch_only_selected",
@@ -91,7 +96,10 @@ RULE = ("compound keys: every list of <=3 elements over a 7-string pool, every p
         "elements over {null,'a',int32 1}, pairs of maps over keys {a,b} with values {null,'',int32 1,{},[]} nested "
         "and flat, every pair of 22 scalar setter/value forms, pairs and triples of container kinds with the same "
         "members, value-over-bucket refusals, random triples; same and later transaction; nil / selecting / "
-        "non-selecting checker on the last write. "
+        "non-selecting checker on the last write; composition of overrides: every sequence of two (and sampled "
+        "sequences of three) WithFieldOverrides tables out of 15 over the names a, b, c (single renamings incl. "
+        "identities, swap, chain, cycle, unknown names) under every subset of {a,b,c} as checker, on one context (e, "
+        "m=t1;t2) and interleaved with GetParentContext / nested buckets (h, 5 shapes). "
         "non-trivial = the spec demands at least one read value (entity scripts) / the list is non-empty "
         "(compound keys); distinct = distinct case line")
 
@@ -221,6 +229,10 @@ def _variants(case):
             out.append(" ".join(f[:3] + ops[:i] + ops[i + 1:]))
         if f[2] != "m=-":
             out.append(" ".join(f[:2] + ["m=-"] + ops))
+            tbls = f[2][2:].split(";")
+            for i in range(len(tbls)):
+                if len(tbls) > 1:
+                    out.append(" ".join(f[:2] + ["m=" + ";".join(tbls[:i] + tbls[i + 1:])] + ops))
         if f[1] not in ("c=-",):
             out.append(" ".join([f[0], "c=-"] + f[2:]))
     elif f[0] == "h":
